@@ -40,3 +40,7 @@ mod c25;
 mod c03;
 #[cfg(kani)]
 mod c28;
+#[cfg(kani)]
+mod c30;
+#[cfg(kani)]
+mod c16;
